@@ -933,10 +933,11 @@ def from_complex_array_to_real_matrix(a: np.ndarray) -> np.ndarray:
      [ 3. -4.]
      [ 5.  6.]]
     """
-    num_elem = np.size(a)
-    a.dtype = a.real.dtype
-    a = np.reshape(a, (num_elem, 2))
-    return a
+    # Note: a new array is created (the dtype of `a` used to be changed in
+    # place, which modified the array of the caller and only worked for
+    # contiguous arrays)
+    flat = np.ravel(a)
+    return np.column_stack((flat.real, flat.imag))
 
 
 # xxxxxxxxxxxxxxxxxxxxxxxxxxxxxxxxxxxxxxxxxxxxxxxxxxxxxxxxxxxxxxxxxxxxxxxxx
